@@ -833,7 +833,22 @@ where
 		height,
 		&context,
 		excess_override,
-	)
+	)?;
+
+	// the payer of an invoice has handed out its signature and, with its inputs reserved, is
+	// done: its context is not left in the store for another step to sign with. (An invoice
+	// the wallet pays to itself is finalized by this wallet, from this same context.)
+	if slate.state == SlateState::Invoice2 {
+		let own_invoice = updater::retrieve_txs(&mut *w, None, Some(slate.id), None, None, false)?
+			.iter()
+			.any(|t| t.tx_type == TxLogEntryType::TxReceived);
+		if !own_invoice {
+			let mut batch = w.batch(keychain_mask)?;
+			batch.delete_private_context(slate.id.as_bytes())?;
+			batch.commit()?;
+		}
+	}
+	Ok(())
 }
 
 /// Finalize slate
